@@ -25,7 +25,7 @@ def cases(tier, seed):
     rng = np.random.default_rng([seed, 1616])
     n = 170 if tier == "quick" else 15000
     for i in range(n):
-        yield {"mesh": gen.random_mesh(rng, 150 if tier == "quick" else 1200, families=["voronoi", "delaunay", "merged", "polyhedron", "cubed_sphere", "latlon_patch", "latlon_global", "clustered"]),
+        yield {"mesh": gen.random_mesh(rng, 150 if tier == "quick" else 1200, families=["voronoi", "delaunay", "merged", "polyhedron", "cubed_sphere", "latlon_patch", "latlon_global", "clustered", "fine_patch", "refined"]),
                "dseed": int(rng.integers(0, 10**6)), "lead": [int(x) for x in rng.integers(1, 4, size=int(rng.integers(0, 3)))],
                "source": str(rng.choice(["topology", "topology", "mpas_supplied", "mpas_plain"]))}
 
@@ -82,6 +82,11 @@ def run_case(ctx, case):
         ctx.check("edge_face_distances", efd.shape == (n_edge,) and len(bad) == 0, dict(sig0, n_face_vs_n_node="gt" if m.n_face > m.n_node else "le"),
                   None if not len(bad) else {"edge": int(bad[0][0]), "got": float(efd[bad[0][0]]), "want": float(wantf[bad[0][0]]), "boundary": bool(~interior[bad[0][0]]), "mesh": d})
     # data operators
+    # two face centres inside the library's pole-snapping band (C04 sanctions it) are reported at the very same point: the
+    # quotient difference / distance is undefined on such an edge, nothing is demanded there
+    defined = ~(interior & (efd == 0))
+    if not defined.all():
+        ctx.observe("meshes_with_coincident_reported_centres")
     lead = case["lead"]
     ldims = ["t%d" % i for i in range(len(lead))]
     n_face, n_node = g.n_face, g.n_node
@@ -118,6 +123,9 @@ def run_case(ctx, case):
             want = np.zeros(tuple(lead) + (n_edge,))
             want[..., interior] = np.abs(fdat[..., ef[interior, 0]] - fdat[..., ef[interior, 1]]) / efd[interior]
             got = np.asarray(r.values)
+            if got.shape == want.shape:
+                got = np.where(defined, got, 0.0)
+                want = np.where(defined, want, 0.0)
             ctx.check("gradient", got.shape == want.shape and np.allclose(got, want, rtol=1e-13, atol=0), sig,
                       {"max_abs_diff": float(np.max(np.abs(got - want))) if got.shape == want.shape else None, "mesh": d})
             ctx.check("dims_grid", ok_meta(r), dict(sig, op="gradient"), {"dims": list(r.dims)})
@@ -125,7 +133,7 @@ def run_case(ctx, case):
                 ctx.check("gradient", bool(np.all(got == 0)), dict(sig, what="zero_for_constant"), None)
             else:
                 ctx.check("gradient", bool(np.all(got[..., ~interior] == 0)), dict(sig, what="zero_on_boundary"), None)
-                if interior.any():
+                if interior.any() and defined.all():
                     rn = fda.gradient(normalize=True)
                     gn = np.asarray(rn.values)
                     norms = np.sqrt(np.sum(gn * gn, axis=-1))
